@@ -225,7 +225,7 @@ class SetList(Sort):
 
     def make(self, ex, st, name):
         from .values import SetListContent, Pair
-        es = Pair if self.elem == 'pair' else self.elem
+        es = Pair if isinstance(self.elem, str) else self.elem
         n = z3.Int(fresh_name(name + '.len'))
         st.pc.append(n >= 0)
         data = z3.Const(fresh_name(name), z3.ArraySort(z3.IntSort(), z3.ArraySort(es, z3.BoolSort())))
@@ -362,7 +362,7 @@ class Inline:
 class Contract:
     def __init__(self, file, func, params=None, requires=None, ensures=None, loops=None, instances=None,
                  callees=None, modifies=(), result=None, raises=None, ghost=None, options=None, name=None,
-                 notes=None, attrs=None, checks=None, call_requires=None):
+                 notes=None, attrs=None, checks=None, call_requires=None, replace=None):
         self.file, self.func = file, func
         self.params = params or {}
         self.requires, self.ensures = requires, ensures
@@ -383,6 +383,9 @@ class Contract:
         # call_requires: the precondition as checked at call sites when `requires` mentions ghost parameters (the ghost
         # parameters are the skolem witnesses of call_requires' existentials)
         self.call_requires = call_requires
+        # replace: [(regex on a statement's source line, fn(executor, state))]: the statement is not executed; its effect is
+        # given by fn (the statement's contract).  Every use is listed in the evidence as an assumption.
+        self.replace = replace or []
 
     def __repr__(self):
         return '<Contract %s>' % self.name
